@@ -28,6 +28,7 @@ VIEW_ENTRY = re.compile(mir.VIEW.pattern[:-2] + r"|entry)$")
 EXPLANATION += ' (R3, round 8) the event payload is decided by evaluating Replica::insert_remote_entry / insert_entry and the reconciliation callbacks (one event, carrying that entry, this document, the providing peer, its content status and policy.matches(entry), exactly when the store reports it inserted). (R8) the last hop to an API subscriber (LiveEvent::from_replica_event, Engine::subscribe). (R9) a refused drop of the document leaves its subscribers subscribed (doc_drop evaluated; reported F29, fixed).'
 EXPLANATION += ' (R10, round 9) = C14.R11: the OpenOpts builders keep the field they do not set (a subscriber handed over with the open request is registered whatever the order of the builders).'
 EXPLANATION += " (R11, round 10) nothing in the crate calls close() on a channel of replica events (senders are dropped, never closed; the store actor's inbox close is the positive example)."
+EXPLANATION += ' (R12, round 11) the content-status callback the actor was spawned with is kept as given and installed in every replica it opens.'
 
 
 def _ins_edges(f, b, put_bi):
